@@ -9,8 +9,14 @@ set_option maxRecDepth 100000
 theorem frozen : Gen.L4.lang = Pinned.L4.lang := rfl
 
 /-- 2048 NUL-free, space-free, non-empty words; each found at its own index by the library's search -/
-theorem check : tableCheck true Gen.L4.lang = true := by decide +kernel
+theorem check : tableCheck Gen.L4.lang = true := by decide +kernel
 
-theorem ok : TableOK true Gen.L4.lang := tableOK_of_check _ _ check
+/-- no two words share their first four accent-stripped letters (languages that allow abbreviation) -/
+theorem prefixOk : prefixCheck Gen.L4.lang = true := by decide +kernel
+
+/-- an empty token is not recognised -/
+theorem emptyTok : findWord Gen.L4.lang [] = none := by decide +kernel
+
+theorem ok : TableOK Gen.L4.lang := tableOK_of_check _ check
 
 end Polyseed.Tables.T4
